@@ -186,3 +186,26 @@ def call_wasserstein(A, B, matching=False, warn_filter="always", site="wasserste
         d, rows = r
         return float(d), np.asarray(rows, dtype=float), nwarn
     return float(r), None, nwarn
+
+
+class parallel_world(object):
+    """The distance functions run no workers today; should a change make them, the workers belong to the scheduler
+    (threads or isolated processes, as the caller's joblib configuration decides)."""
+
+    def __init__(self, sched, case):
+        self.sched, self.cfg, self.seed = sched, case.get("config") or {}, int(case.get("sched_seed", 0))
+
+    def __enter__(self):
+        from sim import simparallel
+        from sim.sched import InvalidCase
+        mode = self.cfg.get("parallel_mode") or ("thread-coop", "proc", "thread-preempt")[(self.seed >> 3) % 3]
+        if mode not in ("proc", "thread-coop", "thread-preempt"):
+            raise InvalidCase("parallel mode")
+        self.world = simparallel.World(self.sched, mode, 8)
+        simparallel.install(self.world)
+        return self.world
+
+    def __exit__(self, *a):
+        from sim import simparallel
+        simparallel.uninstall()
+        return False
